@@ -113,6 +113,12 @@ func RunWorker(prop, hname, tier string, caseIdx int, outDir string, verbose boo
 		Backends: backends, MaxPaths: ts.MaxPaths, Deadline: start.Add(time.Duration(tmo) * time.Second),
 		Verbose: verbose, Pin: pin, Witnesses: witnessCount(h, tier, caseIdx),
 	}
+	if ts.PipeMs > 0 {
+		opt.PipeTimeout = time.Duration(ts.PipeMs) * time.Millisecond
+	}
+	if ts.FeasMs > 0 {
+		opt.FeasTimeout = time.Duration(ts.FeasMs) * time.Millisecond
+	}
 	eng, err := interp.NewEngine(opt)
 	if err != nil {
 		res.Error = "solver: " + err.Error()
